@@ -567,7 +567,15 @@ def simplify_boolean_expressions(source: str) -> str:
 
         if isinstance(node.op, ast.And):
             # One of node.values is always False => Expression is always False
-            if any(isinstance(value, ast.Constant) and not value.value for value in node.values):
+            # (the operands in front of it are still evaluated, so they must not have side effects)
+            deciding = [
+                i
+                for i, value in enumerate(node.values)
+                if isinstance(value, ast.Constant) and not value.value
+            ]
+            if deciding and not any(
+                core.has_side_effect(value) for value in node.values[: deciding[0]]
+            ):
                 yield node, ast.Constant(value=False, kind=None)
                 continue
 
@@ -591,7 +599,15 @@ def simplify_boolean_expressions(source: str) -> str:
 
         elif isinstance(node.op, ast.Or):
             # One of node.values is always True => Expression is always True
-            if any(isinstance(value, ast.Constant) and value.value for value in node.values):
+            # (the operands in front of it are still evaluated, so they must not have side effects)
+            deciding = [
+                i
+                for i, value in enumerate(node.values)
+                if isinstance(value, ast.Constant) and value.value
+            ]
+            if deciding and not any(
+                core.has_side_effect(value) for value in node.values[: deciding[0]]
+            ):
                 yield node, ast.Constant(value=True, kind=None)
                 continue
 
